@@ -134,7 +134,10 @@ Inductive mcase :=
    (live or as it was shut down), whether it is still live *)
 | MThreadless (tick_limit : N) (w : hwork) (e0 : tevent unit) (evs : list (tevent unit)) (o : hobs) (live : bool)
 (* does the schedule satisfy the premise [tame] of C17_local_eq_threaded (decided by tameb)? *)
-| MTame (w : hwork) (evs : list (tevent unit)) (expected : bool).
+| MTame (w : hwork) (evs : list (tevent unit)) (expected : bool)
+(* several connections in ONE executor: per iteration an event and possibly an arriving handler; expected: per
+   connection (client fd) its observation and whether it is still live *)
+| MThreadlessMulti (tick_limit : N) (sched : list (tevent unit * option hwork)) (x : list (fd * hobs * bool)).
 
 Definition check_mcase (c : mcase) : bool :=
   match c with
@@ -150,6 +153,24 @@ Definition check_mcase (c : mcase) : bool :=
           | None, [(j, w')] => negb live && (j =? i)%Z && hobs_eqb w' o
           | _, _ => false
           end
+      | _ => false
+      end
+  | MThreadlessMulti tl sched x =>
+      let evs := map (fun p : tevent unit * option hwork =>
+                        match snd p with
+                        | Some w => {| ev_kfail := te_kfail (fst p); ev_ready := te_ready (fst p); ev_arrival := ANew (hw_client w) w;
+                                       ev_fin := fun _ => true; ev_io := fun _ => tt; ev_clock := te_clock (fst p); ev_running_set := false |}
+                        | None => lift_event (fst p)
+                        end) sched in
+      let (st, s) := L_RUN tl evs (init_state hwork None) in
+      match s with
+      | Running =>
+          forallb (fun e : fd * hobs * bool =>
+                     let '(i, o, live) := e in
+                     match zget i (works st) with
+                     | Some w' => live && hobs_eqb w' o
+                     | None => negb live && existsb (fun g : work_id * hwork => (fst g =? i)%Z && hobs_eqb (snd g) o) (gone st)
+                     end) x
       | _ => false
       end
   | MTame w evs expected =>
